@@ -61,6 +61,7 @@ structure Exec where
   st     : FileSt
   orc    : List Outcome
   logged : Bool          -- RecordMigration returned an id (> 0) in this run
+  inval  : Bool := false -- a mutation that calls invalidateTierCache for the measurement took effect in this run
 deriving Repr
 
 /-- Result of one primitive mutation. -/
@@ -112,7 +113,8 @@ def prim (n : Nat) (a : Act) (x : Exec) : Exec × R :=
     else (x, .ok)                                 -- `if migrationID > 0` guard: nothing is attempted
   | .copy .hot .cold => copyHotCold n x
   | .copy _ _ => (x, .failed)                     -- FindCandidates: "only hot -> cold supported"
-  | .setMeta t => atomic x (fun y => { y with st := { y.st with tier := t, recent := true } })  -- migrated_at = CURRENT_TIMESTAMP
+  | .setMeta t =>                                  -- UpdateTier: migrated_at = CURRENT_TIMESTAMP (+ cache invalidation, generated)
+    atomic x (fun y => { y with st := { y.st with tier := t, recent := true }, inval := y.inval || Arc.Generated.C12.cacheInvalidatedBy.contains .updateTier })
   | .del t => atomic x (fun y => { y with st := y.st.setObj t false })
 
 inductive Exit | ok | err | crash
@@ -182,7 +184,7 @@ def scanOp (s : FileSt) (orc : List Outcome) : Exec × R :=
   let x : Exec := { st := s, orc := orc, logged := false }
   if s.hot && !Arc.Generated.C12.scanSkipsRegistered then
     atomic x (fun y => { y with st := { y.st with tier := Arc.Generated.C12.scanTier,
-                                                   recent := if y.st.tier = Arc.Generated.C12.scanTier then y.st.recent else true } })
+                                                   recent := if y.st.tier = Arc.Generated.C12.scanTier then y.st.recent else true }, inval := y.inval || Arc.Generated.C12.cacheInvalidatedBy.contains .recordFile })
   else (x, .ok)
 
 /-- More than the reconcile window passes without any tiering activity on the file. -/
@@ -221,5 +223,90 @@ def globbed (actual : List Tier) : List Tier :=
 tier holding the complete object under its final ("*.parquet") name. -/
 def visibleCopies (sibHot sibCold : Bool) (s : FileSt) : Nat :=
   ((globbed (actualTiers sibHot sibCold s)).filter s.has).length
+
+/-! ## the long-running process: virtual time and the per-measurement tier cache
+
+`MetadataStore.GetTiersForMeasurement` caches the set of tiers of a measurement for
+`tierCacheTTLSeconds`; the mutators listed in `cacheInvalidatedBy` (generated) drop the entry. A
+restart (after a crash) starts with an empty cache. `sibHot/sibCold`: other files of the measurement. -/
+
+structure CacheEnt where
+  hot : Bool
+  cold : Bool
+  expires : Nat
+deriving DecidableEq, Repr
+
+structure World where
+  f : FileSt
+  sibHot : Bool
+  sibCold : Bool
+  now : Nat := 0
+  cache : Option CacheEnt := none
+deriving Repr
+
+/-- which tiers have a `tier_files` row of the measurement right now -/
+def World.tiers (w : World) : Bool × Bool :=
+  (decide (w.f.tier = Tier.hot) || w.sibHot, decide (w.f.tier = Tier.cold) || w.sibCold)
+
+def World.after (w : World) (f' : FileSt) (crashed inval : Bool) : World :=
+  { w with f := f', cache := if crashed || inval then none else w.cache }
+
+def invBy (m : Mutator) : Bool := Arc.Generated.C12.cacheInvalidatedBy.contains m
+
+def wMig (n : Nat) (w : World) (orc : List Outcome) : World :=
+  let r := migOp n w.f orc
+  w.after r.1.st (r.2 == some .crash) r.1.inval
+
+def wRec (w : World) (orc : List Outcome) : World :=
+  let r := recOp w.f orc
+  w.after r.1.st r.2.crashed r.1.inval
+
+/-- the scan also upserts the hot sibling (if any), which invalidates the same measurement's entry -/
+def wScan (w : World) (orc : List Outcome) : World :=
+  let r := scanOp w.f orc
+  w.after r.1.st (r.2 == .crashed)
+    (r.1.inval || (w.sibHot && !Arc.Generated.C12.scanSkipsRegistered && invBy .recordFile))
+
+def wPhase (n : Nat) (p : Phase) (w : World) (orc : List Outcome) : World × List Outcome × Bool :=
+  match p with
+  | .scan => let r := scanOp w.f orc; (wScan w orc, r.1.orc, r.2 == .crashed)
+  | .migrate => let r := migOp n w.f orc; (wMig n w orc, r.1.orc, r.2 == some .crash)
+  | .reconcile => let r := recOp w.f orc; (wRec w orc, r.1.orc, r.2.crashed)
+
+def wPhases (n : Nat) : List Phase → World → List Outcome → World × Bool
+  | [], w, _ => (w, false)
+  | p :: ps, w, orc =>
+    match wPhase n p w orc with
+    | (w', _, true) => (w', true)
+    | (w', orc', false) => wPhases n ps w' orc'
+
+def wCycle (n : Nat) (w : World) (orc : List Outcome) : World × Bool :=
+  wPhases n Arc.Generated.C12.cycleOrder w orc
+
+def wAge (w : World) : World := { w with f := ageOp w.f }
+def wTick (w : World) (d : Nat) : World := { w with now := w.now + d }
+
+/-- `k` further files of the measurement are ingested (RecordFile) and migrated cleanly (UpdateTier). -/
+def wAddMig (w : World) (k : Nat) : World :=
+  if k = 0 then w
+  else { w with sibCold := true, cache := if invBy .recordFile || invBy .updateTier then none else w.cache }
+
+def fillEnt (w : World) : CacheEnt :=
+  { hot := w.tiers.1, cold := w.tiers.2, expires := w.now + Arc.Generated.C12.tierCacheTTLSeconds }
+
+/-- the entry a query uses: a live cached one (`now < expiresAt`) or a fresh fill -/
+def queryEnt (w : World) : CacheEnt :=
+  match w.cache with
+  | some e => if w.now < e.expires then e else fillEnt w
+  | none => fillEnt w
+
+def entTiers (e : CacheEnt) : List Tier := (if e.hot then [Tier.hot] else []) ++ (if e.cold then [Tier.cold] else [])
+
+/-- a query in the running process: (state with the cache filled, tiers globbed) -/
+def wQuery (w : World) : World × List Tier :=
+  ({ w with cache := some (queryEnt w) }, globbed (entTiers (queryEnt w)))
+
+/-- copies of the file's rows a query in the running process returns -/
+def warmVisible (w : World) : Nat := ((wQuery w).2.filter w.f.has).length
 
 end Arc.C12
